@@ -32,7 +32,7 @@ HandedParams == "handed" \in DOMAIN Ev.ret =>
                    /\ (Ev.ret.trial => /\ Ev.ret.reads = [q \in 1..Len(Ev.ret.params) |-> q - 1]
                                         /\ Ev.ret.scratch >= Len(Ev.ret.params)
                                         \* the body that was built is the body that runs: its loop is a loop, its block a block
-                                        /\ Ev.ret.shape = <<"Loop", "BrIf0", "End", "Block", "BrIf0", "End">>)
+                                        /\ Ev.ret.shape = <<"Loop", "BrIf0", "End", "Block", "BrIf0", "End", "Block(i32)->(i32)", "End">>)
 
 TReplaceImported ==
   /\ IsEvent("replace_imported") /\ HandedParams
